@@ -28,7 +28,7 @@ ASSUMPTIONS = [
 SIMPLIFY = {"text": "nullable", "table": "nullable"}
 WATCHDOG_S = {"quick": 900, "thorough": 4 * 3600}
 
-COLS = [u"a", u"b", u"col", u"x1"]
+COLS = [u"a", u"b", u"col", u"x1", u"user-id"]      # headings need not be identifiers
 VALUES = [u"", u"1", u"v", u"two words", u"ü-ni", u"a", u"b", u"col", u"a b", u"3.5", u"日本", u"x|y", u"it's", u"UP"]
 TAG_VALUES = [u"1", u"v", u"two words", u"t.x", u"k=v", u"A"]
 WORDS = [u"uses", u"and", u"value", u"=", u"(", u")", u"<", u">", u"<unknown>", u"a", u"b", u"x"]
@@ -308,7 +308,7 @@ def check(case):
 
 def explore(rec):
     quick = rec.tier == "quick"
-    rec.hyp("outlines", outline_case(), 12000 if quick else 200000)
+    rec.hyp("outlines", outline_case(), 40000 if quick else 400000)
 
 
 def required_labels(tier):
